@@ -1009,6 +1009,15 @@ func (f *FnVC) coerce(a TV, want TV) (TV, bool) {
 	if want.Sort == "Real" && a.Sort == "Int" {
 		return TV{"(to_real " + a.T + ")", want.Ty, "Real"}, true
 	}
+	if want.Ty != nil && a.Ty != nil && want.Sort == "Int" {
+		if _, isIface := want.Ty.Underlying().(*types.Interface); isIface {
+			if _, aIface := a.Ty.Underlying().(*types.Interface); !aIface {
+				// a concrete value where an interface is expected: box it (same function symbols as MakeInterface)
+				box, _ := f.boxFun(a.Ty)
+				return TV{sApp(box, a.T), want.Ty, "Int"}, true
+			}
+		}
+	}
 	sfail("argument sort mismatch: have %s want %s (%s)", a.Sort, want.Sort, a.T)
 	return a, false
 }
